@@ -328,3 +328,5 @@ func (w *World) WSPipes() []*simnet.Pipe {
 	}
 	return out
 }
+
+func itoa(i int) string { return strconv.Itoa(i) }
